@@ -9,7 +9,7 @@ import (
 
 func init() {
 	register("C02", "Decides structural necessary conditions of 'only chains that lead, in submitted order, to a trusted root are admitted': "+
-		"(R1) ValidateChain's leaf filters block chain verification exactly as the property states: the NotAfter window start ≤ t < limit over all presence/order cases, CA-only ∧ ¬IsCA, rejectExpired ∧ expired, rejectUnexpired ∧ ¬expired (48 valuations), a hit in the forbidden-extension set, no hit in a non-empty required-EKU set; all filters read element 0 of the parsed chain, every raw certificate is parsed and a fatal parse error rejects; "+
+		"(R1) ValidateChain's leaf filters block chain verification exactly as the property states: the NotAfter window start ≤ t < limit over all presence/order cases, CA-only ∧ ¬IsCA, rejectExpired ∧ expired, rejectUnexpired ∧ ¬expired (48 valuations), a hit in the forbidden-extension set, no hit in a non-empty required-EKU set; all filters read element 0 of the parsed chain, every raw certificate is parsed and a fatal parse error rejects; each filter is unavoidable however the others turn out: the first test of the window, of the CA-only/expiry table and of the required-EKU table lies on every path from the entry to Verify, and so does (unless there is nothing to look for) the scan for forbidden extensions, which visits every extension of the leaf, probes each one in a set holding every configured OID, and goes on after a miss; "+
 		"(R2) x509 Verify runs on that leaf with Roots = the configured trusted pool, Intermediates = a fresh pool holding exactly the submitted certificates after the first, name chaining enabled and exactly the five documented relaxations; "+
 		"(R3) the path handed on is an element of Verify's result for which chainsEquivalent(parsed chain, it) held, otherwise an error; chainsEquivalent refuses other lengths than n or n+1 and any position where the certificates differ (Certificate.Equal = equality of Raw); "+
 		"(R4) IsPrecertificate: (true,nil) iff poison ∧ critical ∧ value = ASN.1 NULL, poison otherwise ⇒ error, no poison ⇒ (false,nil); the OID and NULL constants; "+
@@ -158,7 +158,9 @@ func c02ValidateChain(r *Run, fn *ssa.Function) {
 	}
 	c02MapSet(r, fn, "ValidateChain:forbidden-extension-set", rej, "(asn1.ObjectIdentifier).String(p1.rejectExtIds[*])")
 	// required EKUs: with a non-empty list, no hit rejects (set probe, slices.Contains or scan of the configured list)
-	c02RequiredEKU(r, fn, leaf, vi)
+	ekuAtoms := c02RequiredEKU(r, fn, leaf, vi)
+	// every filter is unavoidable on the way to chain verification, however the other filters turn out
+	c02FiltersUnavoidable(r, fn, leaf, vi, rej, ekuAtoms)
 
 	// every raw certificate is parsed; a fatal error rejects; the parsed chain holds all of them in order
 	parse := r.OneCall(fn, "ValidateChain:ParseCertificate", "x509.ParseCertificate")
